@@ -124,6 +124,70 @@ AllFnPositions == {"f_body", "f_arr", "f_prop", "f_objitem", "f_join", "f_any", 
 Member(pn, sn, ind) == IF ind \in {"fnlocal", "fnimp"} THEN FnProg(pn, sn, ind) ELSE ProgOf(pn, sn, ind)
 ValidMember(pn, ind) == (ind \in {"fnlocal", "fnimp"}) <=> (pn \in AllFnPositions)
 
+\* ---- RecGraphs: dependency graphs over N declarations of every kind ------------------------------
+DName(i) == CASE i = 1 -> "d1" [] i = 2 -> "d2" [] i = 3 -> "d3" [] OTHER -> "d4"
+PName(i) == CASE i = 1 -> "r1" [] i = 2 -> "r2" [] i = 3 -> "r3" [] OTHER -> "r4"
+
+RecKinds == {"obj", "arr", "alias", "cnt", "sum", "fn"}
+\* a reference to declaration j: functions are applied, everything else is named
+RefTo(kinds, j) == IF kinds[j] = "fn" THEN App(Var(DName(j)), <<Prim("num")>>) ELSE Var(DName(j))
+
+RecBody(kinds, kd, refs) ==
+  LET rf(j) == RefTo(kinds, refs[j]) IN
+  CASE kd = "obj" -> Obj([j \in 1..Len(refs) |-> Prop(PName(j), rf(j))])
+    [] kd = "arr" -> Arr(IF refs = <<>> THEN Prim("num") ELSE rf(1))
+    [] kd = "alias" -> rf(1)
+    [] kd = "cnt" -> Cnt(<<>>, IF refs = <<>> THEN <<>> ELSE <<rf(1)>>)
+    [] kd = "sum" -> Op("|", <<IF Len(refs) >= 1 THEN rf(1) ELSE Prim("num"), IF Len(refs) >= 2 THEN rf(2) ELSE Prim("str")>>)
+    [] kd = "fn" -> Obj(<<Prop("v", Var("x"))>> \o [j \in 1..Len(refs) |-> Prop(PName(j), rf(j))])
+
+ArityOK(kd, refs) ==
+  CASE kd = "alias" -> Len(refs) = 1
+    [] kd \in {"arr", "cnt"} -> Len(refs) <= 1
+    [] kd = "sum" -> Len(refs) <= 2
+    [] OTHER -> TRUE
+
+\* ascending sequences over 1..n
+AscSeqs(n) == {s \in UNION {[1..k -> 1..n] : k \in 0..n} : \A a, b \in DOMAIN s : a < b => s[a] < s[b]}
+
+RecProg(n, kinds, refs) ==
+  LET decl(i) == IF kinds[i] = "fn" THEN Decl(DName(i), <<"x">>, RecBody(kinds, "fn", refs[i]))
+                 ELSE Let(DName(i), RecBody(kinds, kinds[i], refs[i]))
+      use == IF kinds[1] = "cnt" THEN GetTo(Var("d1")) ELSE Body(RefTo(kinds, 1))
+  IN [main |-> "m1", mods |-> [m \in {"m1"} |-> [i \in 1..n |-> decl(i)] \o <<use>>]]
+
+RecGraphs(n) ==
+  UNION {{RecProg(n, kinds, refs) : refs \in {r \in [1..n -> AscSeqs(n)] : \A i \in 1..n : ArityOK(kinds[i], r[i])}}
+         : kinds \in [1..n -> RecKinds]}
+
+\* ---- RecInst: instantiations of recursive schemas ------------------------------------------------
+RNode == Rec("r", Obj(<<Prop("v", Var("x")), Prop("n", Arr(Var("r")))>>))
+FRec == Decl("f", <<"x">>, RNode)
+TRec == Let("t", Rec("r", Obj(<<Prop("n", Arr(Var("r")))>>)))
+RecInst(name) ==
+  LET one(stmts) == [main |-> "m1", mods |-> [m \in {"m1"} |-> stmts]] IN
+  CASE name = "fn-once"   -> one(<<FRec, Body(App(Var("f"), <<Prim("num")>>))>>)
+    [] name = "fn-twice"  -> one(<<FRec, Body(Obj(<<Prop("a", App(Var("f"), <<Prim("num")>>)), Prop("b", App(Var("f"), <<Prim("str")>>))>>))>>)
+    [] name = "fn-same-arg-twice" -> one(<<FRec, Body(Obj(<<Prop("a", App(Var("f"), <<Prim("num")>>)), Prop("b", App(Var("f"), <<Prim("num")>>))>>))>>)
+    [] name = "fn-thrice" -> one(<<FRec, Body(Obj(<<Prop("a", App(Var("f"), <<Prim("num")>>)), Prop("b", App(Var("f"), <<Prim("str")>>)),
+                                                    Prop("c", App(Var("f"), <<Obj(<<>>)>>))>>))>>)
+    [] name = "top-twice" -> one(<<TRec, Body(Obj(<<Prop("a", Var("t")), Prop("b", Var("t"))>>))>>)
+    [] name = "nested-fn" -> one(<<FRec, Decl("g", <<"y">>, Obj(<<Prop("w", App(Var("f"), <<Var("y")>>)), Prop("z", App(Var("f"), <<Var("y")>>))>>)),
+                                   Body(Obj(<<Prop("a", App(Var("g"), <<Prim("num")>>)), Prop("b", App(Var("g"), <<Prim("str")>>))>>))>>)
+    [] name = "rec-in-rec" -> one(<<Let("t", Rec("a", Obj(<<Prop("x", Rec("b", Obj(<<Prop("up", Arr(Var("a"))), Prop("self", Arr(Var("b")))>>)))>>))),
+                                    Body(Var("t"))>>)
+    [] name = "decl-and-rec" -> one(<<Let("d", Obj(<<Prop("k", Arr(Var("d"))), Prop("r", Rec("z", Arr(Var("z"))))>>)), Body(Var("d"))>>)
+    [] name = "fn-of-rec" -> one(<<FRec, Body(App(Var("f"), <<Rec("q", Arr(Var("q")))>>))>>)
+    [] name = "same-binder-name" -> one(<<Decl("f", <<"y">>, Rec("x", Obj(<<Prop("a", Var("y")), Prop("b", Arr(Var("x")))>>))),
+                                          Body(Rec("x", Obj(<<Prop("c", App(Var("f"), <<Var("x")>>))>>)))>>)
+    [] name = "imported-fn" -> [main |-> "m1", mods |-> [m \in {"m1", "g"} |->
+                                  IF m = "g" THEN <<FRec>>
+                                  ELSE <<Use("g"), Body(Obj(<<Prop("a", App(Var("f"), <<Prim("num")>>)), Prop("b", App(Var("f"), <<Prim("str")>>))>>))>>]]
+    [] name = "ref-decl-twice" -> one(<<LetRef("@o", Obj(<<Prop("k", Arr(Var("@o")))>>)), Body(Obj(<<Prop("a", Var("@o")), Prop("b", Var("@o"))>>))>>)
+    [] name = "mutual" -> one(<<Let("a", Obj(<<Prop("b", Var("b"))>>)), Let("b", Obj(<<Prop("a", Var("a"))>>)), Body(Obj(<<Prop("x", Var("a")), Prop("y", Var("b"))>>))>>)
+RecInstNames == {"fn-once", "fn-twice", "fn-same-arg-twice", "fn-thrice", "top-twice", "nested-fn", "rec-in-rec", "decl-and-rec", "fn-of-rec",
+                 "same-binder-name", "imported-fn", "ref-decl-twice", "mutual"}
+
 AllPositions == {"body", "range", "domain", "headers", "media", "status", "reluri", "res", "xferlist", "proprhs", "objitem",
                  "arritem", "join", "any", "sum", "rangeop", "unary", "urivar", "apparg", "recbody", "refdecl", "concat"}
 AllShapes == {"num", "str", "uriprim", "obj", "obj0", "arr", "prop", "propreq", "unopt", "join", "any", "sum", "sumobj", "cnt", "cnt0",
